@@ -78,6 +78,15 @@ class RepeatUnit(Unit):
             N = rng.randint(3, 8)
             cases.append({"x": gens.loose_x(rng, N), "y": gens.values(rng, N), "r": rng.randint(1, 4), "int": False})
         cases.append({"x": [0.0, 1e-9, 3e-9, 7e-9, 8e-9, 11e-9], "y": gens.values(rng, 6), "r": 3, "int": False})
+        # decimal sampling steps (not binary fractions) with EVERY repeat count 1..12: "r copies" must not depend on how r * period
+        # happens to round (np.arange with a float step yields one element too many for period 0.3, r = 7; period 0.1, r = 3, 6, 12)
+        for step in (0.1, 0.3, 0.05, 0.025, 0.7, 0.2):
+            N = rng.randint(3, 5)
+            xs = [rng.choice([0.0, 0.0, 1.7]) + i * step for i in range(N)] if rng.random() < 0.6 else \
+                 [0.0, step / 2] + [step / 2 + i * step / 2 for i in range(1, N - 1)][:N - 2] + [step * (N - 1) / 2 + step / 2]
+            xs = sorted(set(xs))
+            for r in range(1, 13):
+                cases.append({"x": xs, "y": gens.values(rng, len(xs)), "r": r, "int": False})
         # integer abscissae held in a narrow integer type (hour of day as uint8, second of hour as int16): the extended range
         # leaves the type's range long before it leaves the range of floats
         for dt, top in (("uint8", 24), ("int8", 24), ("int16", 3600), ("uint16", 3600), ("int32", 86400)):
@@ -181,6 +190,21 @@ def poly(coef):
     return lambda v: sum(cf * v ** k for k, cf in enumerate(coef))
 
 
+def poly_kind(coef, kind):
+    """the same polynomial as a callable of another kind: the documented signature is (x) -> y_shift for one abscissa, so a callable
+    that only takes a scalar (float(v) refuses arrays with TypeError; a Python `if` on an array raises ValueError) is as valid as a
+    vectorised one"""
+    f = poly(coef)
+    if kind == "scalar_only":
+        return lambda v: f(float(v))
+    if kind == "branching":
+        return lambda v: (f(v) if v >= 0 else f(v) + 0.0)
+    if kind == "math":
+        import math
+        return lambda v: f(math.fsum([v]))
+    return f
+
+
 def coq_poly(coef):
     terms = " + ".join("%s * %s" % (q(cf), " * ".join(["v"] * k) if k else "1") for k, cf in enumerate(coef))
     return "(fun v : Qc => %s)" % terms
@@ -208,11 +232,13 @@ class TrendUnit(Unit):
             if rng.random() < 0.3:
                 c["coef2"] = rng.choice(POLYS)
             c["container"] = pick_container(rng)
+            c["fn_kind"] = rng.choice(["array", "array", "scalar_only", "branching", "math"])
             cases.append(c)
         return cases
 
     def run(self, c):
         from traffic_weaver.process import trend, linear_trend
+        poly = lambda coef: poly_kind(coef, c.get("fn_kind", "array"))     # noqa: the callable handed to trend()
         x = np.array(c["x"], dtype=float)
         y = np.array(c["y"], dtype=float)
         try:
